@@ -244,7 +244,7 @@ func typeLabels(fn *ssa.Function, v ssa.Value, at *ssa.BasicBlock, msgPath strin
 		}
 	case *ssa.Call:
 		g := an.StaticCallee(&x.Call)
-		if g == nil || len(g.Blocks) == 0 || g.Pkg == nil || !strings.HasPrefix(g.Pkg.Pkg.Path(), an.ModulePrefix) {
+		if !an.InModuleFn(g) {
 			return out
 		}
 		gp := ""
